@@ -15,6 +15,7 @@ from typing import overload
 import pendulum
 
 from pendulum.constants import MONTHS_PER_YEAR
+from pendulum.constants import SECONDS_PER_DAY
 from pendulum.duration import Duration
 from pendulum.helpers import precise_diff
 
@@ -118,7 +119,13 @@ class Interval(Duration, Generic[_T]):
 
         delta: timedelta = _end - _start
 
-        return super().__new__(cls, seconds=delta.total_seconds())
+        # Integer seconds and microseconds: total_seconds() is a float
+        # and loses microseconds beyond 2**33 seconds
+        return super().__new__(
+            cls,
+            seconds=delta.days * SECONDS_PER_DAY + delta.seconds,
+            microseconds=delta.microseconds,
+        )
 
     def __init__(self, start: _T, end: _T, absolute: bool = False) -> None:
         super().__init__()
